@@ -13,3 +13,55 @@ Lemma codec_enums_match :
   gen_class_names = ["Capacities"; "CapacityHints"; "Labels"; "ReservationInfo"; "StructuralInfo"; "Location"; "Flags"]%string /\
   jsondata_names = ["MeasurementData"; "UserData"; "LayoutData"]%string.
 Proof. repeat split; reflexivity. Qed.
+
+From FIM Require Import Model.CodecWf Model.CodecChk.
+
+(* every regenerated class descriptor is well formed, whatever the label validator is *)
+Lemma classes_ok_all V : forallb (cls_ok V) gen_classes = true.
+Proof. reflexivity. Qed.
+
+Lemma classes_ok V c : In c gen_classes -> cls_ok V c = true.
+Proof. intro H. pose proof (classes_ok_all V) as Q. rewrite forallb_forall in Q. exact (Q c H). Qed.
+
+Definition n_capacities : str := S"Capacities".
+
+Lemma drop_rule_lossless_all :
+  forallb (fun c => str_eqb (jc_name c) n_capacities || lossless_cls c) gen_classes = true.
+Proof. vm_compute. reflexivity. Qed.
+
+Lemma drop_rule_lossless c : In c gen_classes -> jc_name c <> n_capacities -> lossless_cls c = true.
+Proof.
+  intros H N. pose proof drop_rule_lossless_all as Q. rewrite forallb_forall in Q. specialize (Q c H).
+  apply orb_true_iff in Q as [Q|Q]; [|exact Q]. apply str_eqb_eq in Q. contradiction.
+Qed.
+
+Lemma capacities_lossless_partial : In cls_Capacities gen_classes /\ jc_name cls_Capacities = n_capacities /\
+  lossless_cls_but [JNull; JBool false] cls_Capacities = true.
+Proof. vm_compute. repeat split; auto. Qed.
+
+(* FULL statement for Capacities (refuted): None is accepted by the constructor (the assertions are skipped),
+   dropped by the encoder and read back as the default 0 *)
+Lemma capacities_none_refuted :
+  exists kw o o', construct VA cls_Capacities kw = Ok o
+    /\ from_json VA cls_Capacities (Some (to_json cls_Capacities o)) = Ok (Some o')
+    /\ json_eqb (JObj o) (JObj o') = false.
+Proof.
+  exists [(S"core", JNull); (S"ram", JInt 1)].
+  eexists. eexists. split; [vm_compute; reflexivity|]. split; vm_compute; reflexivity.
+Qed.
+
+(* FULL forward-compatibility statement (refuted): an unknown key whose value fails the class's per-value
+   assertion makes from_json raise, although the same text without the key decodes *)
+Lemma forward_compat_refuted :
+  exists t t0 o, from_json VA cls_Capacities (Some t0) = Ok (Some o)
+    /\ from_json VA cls_Capacities (Some t) = Err e_type
+    /\ (exists d0 k v, jparse t0 = Some (JObj d0) /\ jparse t = Some (JObj (d0 ++ [(k, v)]))
+                       /\ ahas k (jc_fields cls_Capacities) = false).
+Proof.
+  exists (S"{""core"": 2, ""gpu_model"": ""A100""}"), (S"{""core"": 2}").
+  eexists. split; [vm_compute; reflexivity|]. split; [vm_compute; reflexivity|].
+  exists [(S"core", JInt 2)], (S"gpu_model"), (JStr (S"A100")). repeat split; vm_compute; reflexivity.
+Qed.
+
+Lemma classes_ok_labels V : cls_ok V cls_Labels = true.
+Proof. reflexivity. Qed.
